@@ -597,7 +597,10 @@ def soft_scaling(ctx, vcfg):
     cfg, form = split_variant(vcfg)
     sc = Scheme(cfg)
     shape = (1, 2) if form == "bps" else ((2,) if form == "ps" or cfg[0] == "pi4qpsk" else (1,))
-    y = ctx.complexes("y", shape)
+    # native samples (differential cross-check, replay search) stay near the constellation: float32 evaluates (d1 - d0) / sigma^2 with
+    # an absolute error of about |y|^2 * 1e-7 / sigma^2, which for |y| ~ 12 and sigma^2 ~ 0.007 exceeded the cross-check's 5e-4
+    # relative tolerance on 64-PSK (engine-fault report on the unchanged tree in the thorough tier); the PROOF is for all y, sigma^2 > 0
+    y = ctx.complexes("y", shape, sampler=lambda r: r.gauss(0, 1.2))
     if form in ("t0", "pf"):
         s = _positive(ctx, "nv")
         nv_of = lambda idx: s
